@@ -9,6 +9,10 @@ correspondence (model vs implementation, canonical observables only):
     file object at every kind of position, binary file object: result or exception class, stream position afterwards,
   * `getEncodingInfo` on the FULL cross product media type x transport charset x XML part x meta part x text/bytes
     (every field of EncodingInfo), and on generated (response stub, document) pairs incl. raw message stubs.
+  * wave 3: every getEncodingInfo case travels with the kind of its document (str / bytes) and with the start tags that a
+    recorder in front of the code's own _MetaHTMLParser.handle_starttag saw (ops infod, meta); generated attribute lists
+    straight into the callback; documents for the meta stage; text vs encoded bytes; tryEncodings without chardet (op try);
+    the Lean strict XMLDecl reader against the oracle's strict parser (op strict).
 oracle (implementation only, independent spec in c20_spec.py): documented classification and defaults; BOM / strict
   XML 1.0 declaration / UTF-8; position restored; the documented first-match table; lower-case; mismatch iff.
 Each case is a JSON-able "witness" dict; streams only build witnesses, `process` evaluates them (also used by
@@ -22,6 +26,7 @@ import json
 import logging
 import os
 import re
+import warnings
 from email.message import Message
 from http.client import HTTPMessage
 
@@ -114,6 +119,46 @@ def meta_raw(E, text):
         return ('raises', type(e).__name__)
 
 
+def record_meta(E, text):
+    """run the code's own parser class on the text with a recorder in front of its callback:
+    -> (start tags html.parser reported [(tag, [(name, value|None)])], exception class name | None, p.content_type)"""
+    events = []
+
+    class Rec(E._MetaHTMLParser):
+        def handle_starttag(self, tag, attrs):
+            events.append((tag, list(attrs)))
+            super().handle_starttag(tag, attrs)
+    p = Rec()
+    try:
+        p.feed(text)
+    except Exception as e:          # noqa: BLE001
+        return events, type(e).__name__, None
+    return events, None, p.content_type
+
+
+def msg_stage(content):
+    """what email.message.Message answers for a content string (input of the model)
+    -> ('ok', media_type, None | str | ('T', collapsed)) | ('raises', exc class name)"""
+    try:
+        m = Message()
+        m['content-type'] = content
+        cs = m.get_param('charset')
+        if isinstance(cs, tuple):       # RFC 2231: the model is given what email.utils makes of the triple
+            cs = ('T', email.utils.collapse_rfc2231_value(cs))
+        return ('ok', m.get_content_type(), cs)
+    except Exception as e:          # noqa: BLE001
+        return ('raises', type(e).__name__)
+
+
+def enc_events(events):
+    ws = []
+    for tag, attrs in events:
+        ws += ['T', enc(tag), str(len(attrs))]
+        for a, v in attrs:
+            ws += [enc(a), opt(v)]
+    return ' '.join(ws)
+
+
 # ----------------------------------------------------------------------------------------------
 # vocabularies
 ENC_A, ENC_B, ENC_C = 'enc-a', 'Enc-B', 'ENC-C'
@@ -167,23 +212,30 @@ class C20(Check):
     driver_exe = 'drv_c20'
     sources = ('encutils/__init__.py',)
     trusted_base = (
-        'hand-written model lean/CssVerif/Model/Encutils.lean of _getTextTypeByMediaType / _getTextType / '
-        'encodingByMediaType / detectXMLEncoding / getEncodingInfo (+ tails of getHTTPInfo, getMetaInfo), tied to '
-        'encutils/__init__.py by the correspondence of this run (full cross-product table, generated documents)',
+        'hand-written models lean/CssVerif/Model/Encutils.lean (_getTextTypeByMediaType / _getTextType / encodingByMediaType / '
+        'detectXMLEncoding / getEncodingInfo, tails of getHTTPInfo and getMetaInfo), Model/EncutilsDoc.lean (the bytes guards, '
+        '_MetaHTMLParser.handle_starttag over the reported start tags, front of getMetaInfo, getEncodingInfo on str/bytes '
+        'documents, EncodingInfo.__str__) and Model/EncutilsTry.lean (tryEncodings without chardet), tied to '
+        'encutils/__init__.py by the correspondence of this run (full cross-product table, generated documents, start tags '
+        'recorded in front of the code\'s own callback, generated attribute lists, byte strings)',
         'translator tools/gen/c20_tables.py (ast): constants, the if/elif ladder, lists, regexes (through '
-        'tools/gen/relib.py into Re terms), bomDict, defaultencodings, read sizes',
-        'not modelled, inputs of the model: email.message.Message (header and parameter parsing), '
-        'email.utils.collapse_rfc2231_value, '
-        'html.parser.HTMLParser (+ the 6-line _MetaHTMLParser callback), io.StringIO/BytesIO seek/tell/read, '
-        'tryEncodings (proved unreachable for the generated defaults table), the log, the url= parameter',
+        'tools/gen/relib.py into Re terms), bomDict, defaultencodings, read sizes, the shape and literals of '
+        '_MetaHTMLParser, the codec of the five bytes guards, the tuple and literals of tryEncodings',
+        'not modelled, inputs of the model (arbitrary functions in the theorems): html.parser.HTMLParser (document -> start '
+        'tags), email.message.Message with email.utils.collapse_rfc2231_value (content string -> media type, charset '
+        'parameter); io.StringIO/BytesIO seek/tell/read; which bytes the codecs ascii / iso-8859-1 / windows-1252 accept '
+        '(typed by hand, checked on every byte each run); UTF-8 validity; the log; the url= parameter',
         'sre-faithfulness of Re.ms for the three regexes (validated each run by the correspondence on generated '
         'declarations; group spans cross-checked by the translator against CPython re)',
+        'spec side typed by hand: documented table, XML 1.0 XMLDecl grammar (its executable reader is compared with the '
+        'oracle\'s independent strict parser each run), first-deciding-meta rule, AsciiTransparent',
     )
     assumptions = (
         'str.lower() = ASCII + Latin-1 lower-casing and str.strip() = the Py_UNICODE_ISSPACE set on the generated '
         'alphabets (checked on every code point < 256 and on the generator alphabets each run; cased letters '
         'outside Latin-1 are not generated where the code lower-cases)',
-        'bytes documents are compared through their latin-1 decoding (what the code does)',
+        'bytes documents travel as bytes to the model (kind B) and are decoded as latin-1 there, as the code does',
+        'tryEncodings is exercised only when chardet is not importable (the branch the model covers)',
     )
     rule = ('table: FULL product 18 transport kinds (16 media types, no Content-Type header, no response) x '
             '3 transport charsets x 11 XML parts (none / declaration without, with 3 encodings / 5 BOMs / BOM+declaration) '
@@ -191,9 +243,13 @@ class C20(Check):
             'choices (white space kinds, quotes, spaces around =, standalone, stray encoding attributes, other PI '
             'targets), malformed stream (truncation at every offset, deletions, case changes), boundary stream '
             '(lengths 0..6, every BOM prefix, the 2048 read limit), each as str / bytes / text file at a position / '
-            'binary file; classification: block product of prefixes x main types x subtypes x suffixes + random. '
-            'non-trivial = distinct witness in which at least one source is present (media type classifies as non-other, '
-            'or the document carries a BOM, a declaration or a meta element)')
+            'binary file, each str document also through the strict reader; classification: block product of prefixes x '
+            'main types x subtypes x suffixes + random; meta stage: documents with 1-4 <meta>-like elements in odd spellings '
+            'and places, and attribute lists straight into handle_starttag; text vs its bytes in utf-8 / latin-1 / cp1252 '
+            '(ASCII documents, ASCII head of 2048 characters, early non-ASCII); tryEncodings: every byte, pairs of 17 bytes, '
+            'random byte strings. non-trivial = distinct witness in which at least one source is present (media type '
+            'classifies as non-other, or the document carries a BOM, a declaration or a meta element; a meta start tag '
+            'with attributes; non-ASCII bytes)')
 
     def translate(self, ctx):
         from gen import c20_tables
@@ -209,6 +265,10 @@ class C20(Check):
         self.process(ctx, E, self.gen_sniff(ctx, rng), 'sniff')
         self.process(ctx, E, self.gen_table(ctx), 'table')
         self.process(ctx, E, self.gen_info(ctx, rng), 'info')
+        self.process(ctx, E, self.gen_metadocs(ctx, rng), 'metadocs')
+        self.process(ctx, E, self.gen_metascan(ctx, rng), 'metascan')
+        self.process(ctx, E, self.gen_encoded(ctx, rng), 'encoded')
+        self.process(ctx, E, self.gen_try(ctx, rng), 'try')
         self.default_log_path(ctx, E)
 
     def corpus(self, ctx):
@@ -458,6 +518,127 @@ class C20(Check):
                            'resp': {'kind': 'message', 'content_type': mt, 'body': None}, 'media_type': mt, 'charset': None})
         return ws
 
+    # -- text against its bytes in UTF-8 / latin-1 / cp1252 ------------------------------------------------
+    def gen_encoded(self, ctx, rng):
+        ws = []
+        tails = ['<a>€中\xfc</a>', '\xe9\xe8', '<meta http-equiv="Content-Type" content="text/html;charset=中-x">',
+                 'encoding="\xe9"?>', '\U0001f600']
+        mts = [m for m, _ in MEDIA_TYPES] + [None]
+        for _ in range(ctx.n(250, 6000)):
+            mt = rng.choice(mts)
+            cs = rng.choice([None, None, 'Enc-A', 'utf-8'])
+            resp = None if (mt is None and rng.random() < 0.7) else \
+                {'kind': 'message', 'content_type': None if mt is None else mt + ('' if cs is None else ';charset=' + cs), 'body': None}
+            r = rng.random()
+            xp = self.gen_decl(rng) if rng.random() < 0.7 else ''
+            mp = meta_tag(rng.choice(ENC_NAMES), rng=rng) if rng.random() < 0.6 else ''
+            if r < 0.35:        # all ASCII: every class, every codec
+                text = xp + HTML_BODY % mp
+                codec = rng.choice(['utf-8', 'latin-1', 'cp1252', 'ascii'])
+            elif r < 0.8:       # ASCII head of at least 2048 characters, then anything
+                head = xp + '<!--' + 'x' * rng.choice([2048, 2100, 2047 - len(xp) - 4 if len(xp) < 2000 else 2048]) + '-->'
+                text = head + (HTML_BODY % mp) + rng.choice(tails)
+                codec = 'utf-8'
+            else:               # non-ASCII early: nothing promised, correspondence only
+                text = xp + rng.choice(tails) + HTML_BODY % mp
+                codec = 'utf-8'
+            ws.append({'call': 'textVsEncoded', 'resp': resp, 'text': text, 'codec': codec})
+        return ws
+
+    # -- tryEncodings (the branch without chardet) -----------------------------------------------------------
+    def gen_try(self, ctx, rng):
+        try:
+            import chardet      # noqa: F401
+            ctx.notes['tryEncodings'] = 'chardet is installed: the trial loop does not run, stream skipped'
+            return []
+        except ImportError:
+            pass
+        docs = [bytes([x]) for x in range(256)] + [b'']
+        hot = [0x00, 0x41, 0x7f, 0x80, 0x81, 0x8d, 0x8f, 0x90, 0x9d, 0xa0, 0xe4, 0xff, 0xc3, 0xa4, 0xe2, 0x82, 0xac]
+        docs += [bytes([a, b]) for a in hot for b in hot]
+        for t in ['\xe4\xf6\xfc\xdf', '€', 'a€b', '中', 'caf\xe9']:
+            docs += [t.encode('utf-8')] + ([t.encode('latin-1')] if all(ord(c) < 256 for c in t) else []) + \
+                [t.encode('windows-1252', 'replace')]
+        for _ in range(ctx.n(600, 30000)):
+            n = rng.randint(1, 12)
+            docs.append(bytes(rng.choice(hot) if rng.random() < 0.4 else rng.randrange(32, 127) for _ in range(n)))
+        return [{'call': 'tryEncodings', 'doc': d.decode('latin-1')} for d in docs]
+
+    # -- documents for the meta stage: what html.parser reports for them goes through the model ------------------
+    def gen_metadocs(self, ctx, rng):
+        """documents with several / odd <meta> elements; no expectation from the documented table (the key meta_charset is
+        left out): correspondence of the whole call, of the callback on the reported start tags, and the oracle spec_meta"""
+        he = ['http-equiv="Content-Type"', "http-equiv='content-type'", 'HTTP-EQUIV=Content-Type', 'http-equiv=" content-type "',
+              'http-equiv', 'http-equiv=""', 'http-equiv="refresh"', 'http-equiv="content&#45;type"', 'http-equiv="Content-Type" http-equiv="x"',
+              'http-equiv="x" http-equiv="Content-Type"', 'name="keywords"', 'charset="utf-8"', 'charset']
+        co = ['content="text/html;charset=%s"', "content='text/html; charset=%s'", 'content=text/html;charset=%s', 'CONTENT="TEXT/HTML;CHARSET=%s"',
+              'content=""', 'content', 'content="text/html"', 'content="a" content="text/html;charset=%s"', 'content="%s"', '']
+        wrap = ['%s', '%s', '%s', '<!-- %s -->', '<script>%s</script>', '<head>%s</head>', '<HEAD>%s</HEAD>', '<title>%s</title>',
+                '<style>%s</style>', '<p title="%s">', '<![CDATA[%s]]>', '<noscript>%s</noscript>', '<textarea>%s</textarea>']
+        end = ['>', ' >', '/>', ' />', '>', '\n>']
+        ws = []
+        for _ in range(ctx.n(500, 40000)):
+            parts = []
+            for _ in range(rng.randint(1, 4)):
+                c = rng.choice(co)
+                if '%s' in c:
+                    c = c % rng.choice(ENC_NAMES + ['X-\xc9t\xe9', ''])
+                attrs = [rng.choice(he), c]
+                rng.shuffle(attrs)
+                tag = rng.choice(['meta', 'meta', 'meta', 'META', 'Meta', 'link', 'metadata'])
+                m = '<' + tag + ' ' + ' '.join(a for a in attrs if a) + rng.choice(end)
+                w = rng.choice(wrap)
+                parts.append(w % (m.replace('"', "'") if 'title=' in w else m))
+            text = rng.choice(['', '<!DOCTYPE html>', '<?xml version="1.0" encoding="Enc-C"?>', '\xef\xbb\xbf']) + '<html>' + ''.join(parts) + \
+                rng.choice(['</html>', '', '<body>x</body></html>', '<meta'])
+            mt = rng.choice(['text/html', 'text/html', 'text/plain', 'text/x-foo', 'application/xhtml+xml'])
+            cs = rng.choice([None, None, 'Enc-A'])
+            ws.append({'call': 'getEncodingInfo', 'text': text, 'bytes': rng.random() < 0.4 and all(ord(ch) < 256 for ch in text),
+                       'resp': {'kind': 'message', 'content_type': mt + ('' if cs is None else ';charset=' + cs), 'body': None},
+                       'media_type': mt, 'charset': cs, 'stream': 'metadocs'})
+        return ws
+
+    # -- attribute lists straight into the callback of the meta parser --------------------------------------
+    def gen_metascan(self, ctx, rng):
+        """sequences of handle_starttag calls: what html.parser can report (lower-case names, None for a value-less
+        attribute, repeated attributes) and beyond (the callback lower-cases names itself)"""
+        tags = ['meta'] * 14 + ['META', 'link', 'title', 'metadata', 'met', '']
+        names = ['http-equiv'] * 4 + ['content'] * 4 + ['HTTP-EQUIV', 'Http-Equiv', 'CONTENT', 'name', 'charset',
+                                                         'http-equiv ', 'httpequiv', 'contents', 'É']
+        equivs = ['Content-Type', 'content-type', ' content-type ', 'CONTENT-TYPE\t', '\ncontent-type', 'content-type;',
+                  'refresh', 'Content-Typ', '', None, 'content type', '\xa0content-type ']
+        contents = ['text/html;charset=X', 'TEXT/HTML; Charset=É', 'text/html', '', None, ' ', 'A', 'b', 'application/xhtml+xml; charset=Enc-B']
+        ws = []
+        fixed = [
+            [('meta', [('http-equiv', 'Content-Type'), ('content', 'A')]), ('meta', [('http-equiv', 'Content-Type'), ('content', 'B')])],
+            [('meta', [('http-equiv', 'Content-Type'), ('content', '')]), ('meta', [('http-equiv', 'Content-Type'), ('content', 'B')])],
+            [('meta', [('http-equiv', 'Content-Type')]), ('meta', [('http-equiv', 'Content-Type'), ('content', 'B')])],
+            [('meta', [('http-equiv', 'Content-Type'), ('content', None)]), ('meta', [('content', 'B'), ('http-equiv', 'Content-Type')])],
+            [('meta', [('http-equiv', 'refresh'), ('http-equiv', 'Content-Type'), ('content', 'A'), ('content', 'Z')])],
+            [('meta', [('http-equiv', 'Content-Type'), ('http-equiv', 'refresh'), ('content', 'A')]), ('meta', [('HTTP-EQUIV', 'CONTENT-TYPE'), ('CONTENT', 'Q')])],
+            [('meta', [('charset', None)]), ('META', [('http-equiv', 'Content-Type'), ('content', 'up')]), ('meta', [('http-equiv', ' Content-Type '), ('content', 'low')])],
+            [], [('meta', [])], [('link', [('http-equiv', 'Content-Type'), ('content', 'A')])],
+        ]
+        for ev in fixed:
+            ws.append({'call': 'metaScan', 'events': [[t, [list(a) for a in at]] for t, at in ev]})
+        for _ in range(ctx.n(2500, 120000)):
+            ev = []
+            for _ in range(rng.randint(1, 4)):
+                attrs = []
+                for _ in range(rng.randint(1, 4)):
+                    n = rng.choice(names)
+                    low = n.strip().lower()
+                    if low == 'http-equiv':     # mostly a spelling that counts, so that several metas of a sequence decide
+                        v = rng.choice(equivs[:5]) if rng.random() < 0.6 else rng.choice(equivs)
+                    elif low == 'content':
+                        v = rng.choice(contents)
+                    else:
+                        v = rng.choice(['n', None, 'Content-Type', 'utf-8'])
+                    attrs.append([n, v])
+                ev.append([rng.choice(tags), attrs])
+            ws.append({'call': 'metaScan', 'events': ev})
+        return ws
+
     def default_log_path(self, ctx, E):
         """a few calls without log= (the default path builds a log and fills logtext); observables must be the same"""
         for mt, text in [('text/html; charset=A', '<meta http-equiv="Content-Type" content="text/html;charset=b">'),
@@ -489,16 +670,52 @@ class C20(Check):
         with time_limit(20):
             if call == 'classify':
                 mt = w['media_type']
-                got = [str(E._getTextTypeByMediaType(mt, log=None)), opt(E.encodingByMediaType(mt))]
+                try:
+                    got = [str(E._getTextTypeByMediaType(mt, log=None)), opt(E.encodingByMediaType(mt))]
+                except Exception as e:      # noqa: BLE001
+                    got = ['ERR ' + type(e).__name__] * 2
                 return {'lines': ['classify ' + opt(mt), 'ebm ' + opt(mt)], 'impl': got}
             if call == 'textType':
                 d = w['doc']
-                got = [str(E._getTextType(d.encode('latin-1') if w.get('bytes') else d))]
+                try:
+                    got = [str(E._getTextType(d.encode('latin-1') if w.get('bytes') else d))]
+                except Exception as e:      # noqa: BLE001
+                    got = ['ERR ' + type(e).__name__]
                 return {'lines': ['ttype ' + enc(d)], 'impl': got}
             if call == 'detectXMLEncoding':
                 return self.plan_sniff(E, w)
             if call == 'getEncodingInfo':
                 return self.plan_info(E, w)
+            if call == 'metaScan':
+                return self.plan_metascan(E, w)
+            if call == 'tryEncodings':
+                try:
+                    import chardet      # noqa: F401
+                    return {'lines': [], 'impl': [], 'res': None, 'skip': True}     # the trial loop does not run
+                except ImportError:
+                    pass
+                b = w['doc'].encode('latin-1')
+                try:
+                    b.decode('utf-8')
+                    u8 = 1
+                except UnicodeDecodeError:
+                    u8 = 0
+                try:
+                    with warnings.catch_warnings():
+                        warnings.simplefilter('ignore')
+                        res = ('OK', E.tryEncodings(b, log=_silent))
+                except Exception as e:      # noqa: BLE001
+                    res = ('ERR', type(e).__name__)
+                got = 'OK ' + opt(res[1]) if res[0] == 'OK' else 'ERR ' + res[1]
+                return {'lines': ['try %d %s' % (u8, enc(w['doc']))], 'impl': [got], 'res': res}
+            if call == 'textVsEncoded':
+                subs = []
+                for isb in (False, True):
+                    t = w['text'].encode(w['codec']).decode('latin-1') if isb else w['text']
+                    sw = {'call': 'getEncodingInfo', 'resp': w['resp'], 'text': t, 'bytes': isb, 'stream': 'encoded'}
+                    subs.append((sw, self.plan_info(E, sw)))
+                return {'lines': subs[0][1]['lines'] + subs[1][1]['lines'], 'impl': subs[0][1]['impl'] + subs[1][1]['impl'],
+                        'subs': subs}
         raise ValueError('unknown witness %r' % (w,))
 
     def plan_sniff(self, E, w):
@@ -522,20 +739,50 @@ class C20(Check):
         after = fp.tell() if isfile else None
         got = '%s %s %d' % (res[0], opt(res[1]) if res[0] == 'OK' else res[1], after if isfile else 0)
         line = 'xml %d %d %d %s' % (form == 'BytesIO', incl, pos if isfile else 0, enc(d))
-        return {'lines': [line], 'impl': [got], 'res': res, 'after': after, 'isfile': isfile}
+        lines, impls = [line], [got]
+        if form == 'str':
+            # the strict XML 1.0 reader of the Lean side against the independent strict parser of the oracle
+            # (spec against spec: both are typed by hand from the recommendation)
+            sd = S.parse_xmldecl(d)
+            lines.append('strict ' + enc(d))
+            impls.append('WF %s %d' % (opt(sd[1]), sd[2]) if sd[0] == 'wf' else 'NODECL')
+        return {'lines': lines, 'impl': impls, 'res': res, 'after': after, 'isfile': isfile}
+
+    def plan_metascan(self, E, w):
+        p = E._MetaHTMLParser()
+        try:
+            for tag, attrs in w['events']:
+                p.handle_starttag(tag, [tuple(a) for a in attrs])
+            res = ('OK', p.content_type)
+        except Exception as e:      # noqa: BLE001
+            res = ('ERR', type(e).__name__)
+        got = opt(res[1]) if res[0] == 'OK' else 'ERR ' + res[1]
+        return {'lines': ['meta ' + enc_events(w['events'])], 'impl': [got], 'res': res}
 
     def plan_info(self, E, w):
         resp = build_resp(w['resp'])
         text = w['text']
         arg = text.encode('latin-1') if (text is not None and w.get('bytes')) else text
+        shown = None
         try:
             i = E.getEncodingInfo(resp, arg, log=_silent)
             res = ('OK', i.encoding, bool(i.mismatch), i.http_media_type, i.http_encoding, i.meta_media_type,
                    i.meta_encoding, i.xml_encoding)
+            shown = str(i)
             if i.mismatch not in (True, False):
                 res = ('OK-badflag',) + res[1:]
         except Exception as e:      # noqa: BLE001
             res = ('ERR', type(e).__name__)
+        # metamorphic twin (implementation only): the same values handed over in the other kind (str <-> bytes)
+        twin = None
+        if text is not None and all(ord(c) < 256 for c in text):
+            other = text if w.get('bytes') else text.encode('latin-1')
+            try:
+                j = E.getEncodingInfo(build_resp(w['resp']), other, log=_silent)
+                twin = ('OK', j.encoding, bool(j.mismatch), j.http_media_type, j.http_encoding, j.meta_media_type,
+                        j.meta_encoding, j.xml_encoding)
+            except Exception as e:      # noqa: BLE001
+                twin = ('ERR', type(e).__name__)
         # inputs of the model: what the message object answers, the effective document, the parser stage of the meta sniffer
         if resp is not None:
             info = resp.info()
@@ -545,18 +792,41 @@ class C20(Check):
             mt = cs = body = None
         eff = text if text is not None else (body if body is not None else '')
         mr = meta_raw(E, eff)
-        if mr[0] == 'found':
-            p = mr[2]
-            mwords = 'found %s %s' % (enc(mr[1]), 'N' if p is None else ('T' + enc(p[1]) if isinstance(p, tuple) else enc(p)))
+        # the meta stage: the start tags html.parser reports for the decoded document (input of the model), what the
+        # callback of the code makes of them (compared with the model's metaScan), what Message answers (input)
+        events, hexc, ctype = record_meta(E, eff)
+        if hexc is not None:
+            mwords, hkind = 'none - - N', 'raises'
         else:
-            mwords = '%s - N' % mr[0]
-        line = 'info %d %s %s %s %s %s N' % (resp is not None, opt(mt), opt(cs), opt(body), opt(text), mwords)
+            hkind = 'ok'
+            if ctype:
+                ms = msg_stage(ctype)
+                if ms[0] == 'ok':
+                    pv = ms[2]
+                    mwords = 'ok %s %s %s' % (enc(ctype), enc(ms[1]),
+                                              'N' if pv is None else ('T' + enc(pv[1]) if isinstance(pv, tuple) else enc(pv)))
+                else:
+                    mwords = 'raises %s - N' % enc(ctype)
+            else:
+                mwords = 'none - - N'
+        isb = bool(w.get('bytes'))
+        bkind = 'N' if body is None else ('B' if w['resp'].get('body_bytes') else 'S')
+        tkind = 'N' if text is None else ('B' if isb else 'S')
+        line = 'infod %d %s %s %s %s %s %s %s N %s %s' % (
+            resp is not None, opt(mt), opt(cs), bkind, '-' if body is None else enc(body), tkind,
+            '-' if text is None else enc(text), mwords, hkind, enc_events(events))
+        lines = [line.rstrip()]
+        impls = []
+        if hexc is None:
+            lines.append(('meta ' + enc_events(events)).rstrip())
+            impls.append(opt(ctype))
         if res[0] == 'OK':
-            got = 'OK %s %d %s %s %s %s %s' % (opt(res[1]), res[2], opt(res[3]), opt(res[4]), opt(res[5]), opt(res[6]),
-                                               opt(res[7]))
+            got = 'OK %s %d %s %s %s %s %s %s' % (opt(res[1]), res[2], opt(res[3]), opt(res[4]), opt(res[5]), opt(res[6]),
+                                                  opt(res[7]), enc(shown))
         else:
             got = 'ERR ' + res[1]
-        return {'lines': [line], 'impl': [got], 'res': res, 'eff': eff, 'meta_raw': mr, 'mt': mt, 'cs': cs}
+        return {'lines': lines, 'impl': [got] + impls, 'res': res, 'eff': eff, 'meta_raw': mr, 'mt': mt, 'cs': cs,
+                'events': events, 'ctype': ctype, 'hexc': hexc, 'twin': twin, 'shown': shown}
 
     # ------------------------------------------------------------------------------------------------
     def judge(self, ctx, E, w, pl, model):
@@ -566,7 +836,7 @@ class C20(Check):
             for ln, g, m in zip(pl['lines'], pl['impl'], model):
                 if call == 'getEncodingInfo' and m == 'ERR Extractor' and pl['meta_raw'][0] == 'raises':
                     m = 'ERR ' + pl['meta_raw'][1]      # the model only says "the parser stage raised"
-                if call == 'detectXMLEncoding' and not pl['isfile']:
+                if call == 'detectXMLEncoding' and not pl['isfile'] and ln.startswith('xml '):
                     m = m.rsplit(' ', 1)[0] + ' 0'      # a str/bytes document has no position to compare
                 if g != m:
                     ctx.disagree(call, w, g, m)
@@ -574,13 +844,36 @@ class C20(Check):
             self.oracle_classify(ctx, E, w, pl)
         elif call == 'textType':
             ctx.case(key=('tt', w['doc'], w.get('bytes')), nontrivial='<?xml' in w['doc'], kind='textType')
+            if pl['impl'][0].startswith('ERR'):
+                ctx.violate('a document given as text or as bytes is classified by its first characters (the call raised)',
+                            w, {'impl': pl['impl'][0]})
         elif call == 'detectXMLEncoding':
             self.oracle_sniff(ctx, E, w, pl)
         elif call == 'getEncodingInfo':
             self.oracle_info(ctx, E, w, pl)
+            if pl['hexc'] is None:
+                self.oracle_meta(ctx, w, pl['events'], ('OK', pl['ctype']), case=False)
+        elif call == 'metaScan':
+            self.oracle_meta(ctx, w, w['events'], pl['res'], case=True)
+        elif call == 'tryEncodings':
+            if pl.get('skip'):
+                return
+            b = w['doc'].encode('latin-1')
+            want = S.spec_try(b)
+            ctx.case(key=('try', w['doc']), nontrivial=not b.isascii(), kind='try:' + want, sample={'bytes': w['doc'], 'impl': list(pl['res'])})
+            if pl['res'] != ('OK', want):
+                ctx.violate('tryEncodings (without chardet) answers ascii for ASCII bytes, windows-1252 for valid windows-1252 '
+                            'with a Euro sign, else iso-8859-1', w, {'impl': list(pl['res']), 'spec': want})
+        elif call == 'textVsEncoded':
+            for sw, spl in pl['subs']:
+                self.oracle_info(ctx, E, sw, spl)
+            self.oracle_encoded(ctx, w, pl)
 
     def oracle_classify(self, ctx, E, w, pl):
         mt = w['media_type']
+        if pl['impl'][0].startswith('ERR'):
+            ctx.violate('every media type is classified (the call raised)', w, {'impl': pl['impl'][0]})
+            return
         cls = S.spec_classify(mt)
         codes = {'appxml': E._XML_APPLICATION_TYPE, 'textxml': E._XML_TEXT_TYPE, 'html': E._HTML_TEXT_TYPE,
                  'css': E._TEXT_UTF8, 'text': E._TEXT_TYPE, 'other': E._OTHER_TYPE}
@@ -599,6 +892,14 @@ class C20(Check):
         res = pl['res']
         ctx.case(key=('sniff', d, form, pos, incl), nontrivial=(st == 'bom' or d.startswith('<?xml')),
                  kind='sniff:%s:%s' % (form, st), sample={'doc': d[:80], 'form': form, 'pos': pos, 'impl': list(res)})
+        if form == 'str' and len(d) > 2048:
+            # only the first 2048 characters are looked at (theorem sniff_window; here on the implementation)
+            try:
+                cut = ('OK', E.detectXMLEncoding(d[:2048], log=None, includeDefault=incl))
+            except Exception as e:      # noqa: BLE001
+                cut = ('ERR', type(e).__name__)
+            if cut != res:
+                ctx.violate('XML sniffing looks at the first 2048 characters only', w, {'whole': list(res), 'cut': list(cut)})
         if w.get('oracle') is False:
             return
         known = KF_SHORT if S.region_short(d) else None
@@ -617,6 +918,40 @@ class C20(Check):
             ctx.violate('XML sniffing leaves the stream position untouched', w, {'before': pos, 'after': pl['after'],
                                                                               'impl': list(res)})
 
+    def oracle_meta(self, ctx, w, events, res, case):
+        want = S.spec_meta(events)
+        if case:
+            ctx.case(key=('metascan', json.dumps(events)), nontrivial=any(t == 'meta' and a for t, a in events),
+                     kind='metaScan:' + ('decided' if want else 'none'), sample={'events': events, 'impl': list(res)})
+        if res[0] == 'ERR':
+            ctx.violate('the meta sniffer survives every attribute list the HTML parser can report (it raised)', w,
+                        {'impl': list(res)})
+            return
+        got = res[1] or None
+        if got != want:
+            ctx.violate('the Content-Type <meta> used is the first one that has a content (http-equiv stripped and '
+                        'case-insensitive, last attribute of a name counts)', w, {'impl': res[1], 'spec': want,
+                                                                                 'events': events})
+
+    def oracle_encoded(self, ctx, w, pl):
+        """text vs its bytes in an ASCII-transparent codec: same EncodingInfo when the whole document is ASCII, or when the
+        first 2048 characters are and the class does not consult the meta stage (theorems ascii_document_any_encoding /
+        ascii_head_any_encoding; here checked on the implementation)"""
+        t = w['text']
+        (_, p1), (_, p2) = pl['subs']
+        has_resp = w['resp'] is not None
+        cls = S.spec_classify(p1['mt']) if has_resp else S.absent_class(t)
+        if t.isascii():
+            must = True
+        elif t[:2048].isascii() and len(t) >= 2048 and cls not in ('html', 'text', None):
+            must = True
+        else:
+            must = False
+        ctx.count('encoded:' + ('must-agree' if must else 'free'))
+        if must and p1['res'] != p2['res']:
+            ctx.violate('text and its bytes in an ASCII-transparent encoding get the same EncodingInfo when the part of the '
+                        'document that is looked at is ASCII', w, {'text': list(p1['res']), 'bytes': list(p2['res'])})
+
     def oracle_info(self, ctx, E, w, pl):
         res, doc = pl['res'], as_text(pl['eff'])
         has_resp = w['resp'] is not None
@@ -625,6 +960,12 @@ class C20(Check):
         ctx.case(key=('info', json.dumps(w, sort_keys=True)), nontrivial=srcs,
                  kind='%s:%s' % (w.get('stream', 'info'), cls_guess),
                  sample={'resp': w['resp'], 'text': (w['text'] or '')[:100], 'bytes': w.get('bytes'), 'impl': list(res)})
+        if pl.get('twin') is not None and pl['twin'][1:] != res[1:] and pl['twin'][0][:2] == res[0][:2]:
+            ctx.violate('the document given as text or as bytes (same values) gets the same EncodingInfo', w,
+                        {'given': list(res), 'other kind': list(pl['twin'])})
+        elif pl.get('twin') is not None and pl['twin'][0][:2] != res[0][:2]:
+            ctx.violate('the document given as text or as bytes (same values) gets the same EncodingInfo (one call raised)', w,
+                        {'given': list(res), 'other kind': list(pl['twin'])})
         if res[0] == 'ERR':
             ctx.violate('for every document the encoding is reported by the documented rules (the call raised)', w,
                         {'impl': list(res)})
@@ -634,6 +975,8 @@ class C20(Check):
             return
         _, encoding, mismatch, http_mt, http_enc, meta_mt, meta_enc, xml_enc = res
         # clauses that need no knowledge of the document
+        if pl.get('shown') is not None and pl['shown'] != (encoding or ''):
+            ctx.violate('str(info) is the reported encoding or the empty string', w, {'str': pl['shown'], 'encoding': encoding})
         if isinstance(encoding, str) and encoding != encoding.lower():
             ctx.violate('the reported encoding is lower-case', w, {'impl': encoding})
         if mismatch != S.known3(http_enc, xml_enc, meta_enc):
